@@ -49,6 +49,15 @@ def gen_cases(tier, seed):
             # derivatives stay finite): then only reporting ever evaluates the failing quantity at rejected points
             case["region_components"] = ["obj"] if rng.random() < 0.5 else ["obj", "obj_grad", "cons", "cons_jac"]
             case["cfg"]["lamb_init"] = float(10.0 ** rng.uniform(-3, 0))   # long first steps overshoot
+        elif fam in ("QP", "NLP") and rng.random() < 0.4:
+            # the user's matrices reach the iterates as they are (no scaling, equality rows only) and share one
+            # non-canonically ordered sparsity structure: anything that "only looks" at a matrix but rearranges its
+            # storage shows up in every later matrix
+            cfgd["scaling"] = "none"
+            case["gopts"] = {"row_force": ["eq"] * 12}
+            case["policy"] = "shared"
+            case["fmt"] = str(rng.choice(["coo", "csr", "csc"]))
+            case["y0"] = "rand"
         if rng.random() < 0.2 and cfgd.get("active") != "Explicit":
             cfgd["active_set_method"] = "half"    # user rule tau = 0.5 / lamb (reads the controller's lambda)
         case["exhaustive_display"] = bool(short)
@@ -141,6 +150,7 @@ def run_case(case):
         bump("exhaustive_display_patterns", int(bool(obs.get("exhaustive"))))
         bump("log_chars", out.log_chars)
         bump("observed_runs_restricted_domain", int("region_radius" in case))
+        bump("observed_runs_shared_structure", int(case.get("policy") == "shared"))
         bump("non_finite_evaluations_in_observed_runs", out.faults_fired)
         key = dict(key0, log=obs["log"], rcond=obs["rcond"], path=obs["path"], displayed=bool(out.clock.displayed))
 
@@ -198,7 +208,7 @@ def finalize(agg, tier):
         "floors": {"observed_runs": 800, "displayed_rows": 2000, "log_DEBUG": 200, "rcond_runs": 200, "path_runs": 200,
                    "callback_invocations": 2000, "exhaustive_display_patterns": 100, "log_chars": 100000,
                    "observed_runs_restricted_domain": 100, "non_finite_evaluations_in_observed_runs": 200,
-                   "global_random_states_compared": 800},
+                   "global_random_states_compared": 800, "observed_runs_shared_structure": 60},
         "assumptions": ["state that lives outside the solver but takes part in a user's computation is compared too: the process-global numpy.random / random generators are seeded before every run and must be in the same state after an observed run as after the bare run",
                         "the display schedule is the only wall-clock dependence of a solve; it is scripted through the "
                         "virtual clock (pygradflow.timer.time)"],
